@@ -281,9 +281,40 @@ def check(rep, F, tier, replay=None):
                 is_none = isinstance(rv, list) and rv[0] == "agg" and rv[2].endswith("option::Option") and rv[3] == "None"
                 if not is_none:
                     rep.violation("WS-pairing", "%s|%s-not-none" % (key, f), "%s stores something other than None into raw part %s" % (key, f), {"function": fid})
-            # the clearing store must be on every path to return: its block dominates the return block
-            rets = [bi for bi, bb in enumerate(fn["bbs"]) if bb["t"][1] == "ret"]
+            # cleared IFF changed.  When the typed field is changed through a set `add` that reports whether anything was added (bool),
+            # the clearing store sits exactly on the `true` edge of that result: cleared => changed (dominated by the edge) and
+            # changed => cleared (straight-line from the edge to the store).  Otherwise the store must be on every path to return.
+            import mustpass as mp
             blocks = {s[2] for s in sts}
+            adds = [c for c in F.calls(fid) if (c.to or "").rsplit("::", 1)[-1] == "add" and (c.to or "").split("::")[-2].lower().startswith(("vkeywitnesses", "bootstrapwitnesses")) and F.fns.get(c.to, {}).get("locals", [""])[0] == "bool"]
+            gated = False
+            for c in adds:
+                g = mp.bool_gate(F, fid, c)
+                if not g:
+                    continue
+                fb, tb = g
+                ok_dom = all(mp.dominated_by(fn, b, tb) for b in blocks)
+                cur = tb
+                reach = False
+                for _ in range(12):
+                    if cur in blocks:
+                        reach = True
+                        break
+                    su = [x for x in F.succ(fn, cur, with_unwind=False) if x is not None]
+                    if len(su) != 1:
+                        break
+                    cur = su[0]
+                if ok_dom and reach:
+                    gated = True
+                elif ok_dom and not reach:
+                    rep.violation("WS-pairing", "%s|%s-changed-not-cleared" % (key, f), "%s: after a witness was really added to %s some path does not clear the raw bytes: the stale original bytes would be written and the new witness lost" % (key, f), {"function": fid})
+                    gated = True
+            if gated:
+                continue
+            if adds:
+                rep.violation("WS-pairing", "%s|%s-cleared-without-change" % (key, f), "%s clears the original bytes of %s even when the witness was already present and nothing was added: an untouched, non-canonically encoded field is then re-encoded instead of copied byte-for-byte" % (key, f), {"function": fid})
+                continue
+            rets = [bi for bi, bb in enumerate(fn["bbs"]) if bb["t"][1] == "ret"]
             for r in rets:
                 doms = set(dominators(fn, r)) | {r}
                 if not (blocks & doms):
